@@ -61,12 +61,14 @@ def gen_scenarios(rng, n):
                 cfg["W"] = rng.randint(2, 4)
             if rng.random() < 0.3:
                 cfg["shape"] = "dupchoice"
+            if cfg["kind"] != "bayes" and rng.random() < 0.2:
+                cfg["seed"] = -rng.randint(1, 8)        # the per-sample seeds seed, seed+1, ... then pass through 0
             out.append(dict(type="history", cfg=cfg, grow=rng.random() < 0.6))
     return out
 
 
 def run_child(salt, hashseed, path, phase="full"):
-    env = dict(os.environ, PYTHONHASHSEED=str(hashseed), PYTHONPATH="/repo:/verif/harness", TF_CPP_MIN_LOG_LEVEL="3")
+    env = dict(os.environ, PYTHONHASHSEED=str(hashseed), PYTHONPATH=os.environ.get("KT_REPO", "/repo") + ":/verif/harness", TF_CPP_MIN_LOG_LEVEL="3")
     p = subprocess.run(["/venv/bin/python", "-W", "ignore", "-m", "ktverif.c12_child", str(salt), path, phase], capture_output=True, text=True, env=env, timeout=3000)
     for line in p.stdout.split("\n"):
         if line.startswith("C12RESULT "):
